@@ -565,6 +565,7 @@ func closeRaces(m *meta, rng *rand.Rand, round int) {
 					if !c.VerifClosed() {
 						m.violate("C08", ctx+": ErrCacheClosed from an open cache", ctx)
 					}
+					runtime.Gosched() // refused calls return at once: do not starve Close's final drain on a small machine
 				}
 			}
 		}()
